@@ -1290,3 +1290,264 @@ func c18SweepScansAll(c *Ctx, pkI *packages.Package) {
 		c.Fail(rule, "anchor", token.NoPos, "no loop over source code info locations found in the sweeper")
 	}
 }
+
+// ---- C05 (after round-6 seed C05-p) --------------------------------------------------------------------------------
+
+// c05CaseAlwaysNormalised (CASE-ALWAYS-NORMALISED): the naming rules compare a name with its canonical spelling, and the
+// canonical spelling is what the one normalising routine produces - which also strips leading and trailing underscores
+// and collapses runs of them. The exported To…SnakeCase functions return nothing that has not been through it: a fast
+// path for names that "already look right" (all caps, digits and underscores) lets `TEST__DOUBLE` and `_LEADING` pass.
+func c05CaseAlwaysNormalised(c *Ctx) {
+	const rule = "CASE-ALWAYS-NORMALISED"
+	c.Rule(rule, "the snake-case converters return only what the normalising routine produced", 2)
+	p := c.P
+	pk := p.Pkg("private/pkg/stringutil")
+	if pk == nil {
+		c.Fail(rule, "anchor", token.NoPos, "stringutil not found")
+		return
+	}
+	n := 0
+	for _, sf := range p.SSAFuncsOf([]*packages.Package{pk}) {
+		if sf.Signature.Recv() != nil || sf.Object() == nil || !sf.Object().Exported() || !strings.HasSuffix(sf.Name(), "SnakeCase") || !strings.HasPrefix(sf.Name(), "To") {
+			continue
+		}
+		k := 0
+		for _, r := range returnsOf(sf) {
+			if len(r.Results) != 1 {
+				continue
+			}
+			n++
+			k++
+			ok := dependsOnCall(r.Results[0], func(cc *ssa.CallCommon) bool {
+				sc := cc.StaticCallee()
+				return sc != nil && sc.Pkg == sf.Pkg && sc.Object() != nil && !sc.Object().Exported()
+			})
+			c.Ob(rule, fmt.Sprintf("stringutil.%s/return#%d", sf.Name(), k), r.Pos(), ok, true, "the returned string went through the package's normalising routine: %v", ok)
+		}
+	}
+	if n == 0 {
+		c.Fail(rule, "anchor", token.NoPos, "no To…SnakeCase function found")
+	}
+}
+
+// ---- C20/C07 (after round-6 seed C20-q) ----------------------------------------------------------------------------
+
+// c20DiffRawBytes (DIFF-RAW-BYTES): `format --exit-code` and `format -d` take their verdict from the diff text, `-w`
+// rewrites what differs byte for byte. The two agree because the differ is handed the bytes as they were read: between
+// reading the two objects and the call of the diff routine nothing rewrites the data (no bytes./strings. function).
+func c20DiffRawBytes(c *Ctx) {
+	const rule = "DIFF-RAW-BYTES"
+	c.Rule(rule, "the bucket differ compares the bytes as read: nothing rewrites them on the way to the diff routine", 1)
+	p := c.P
+	pk := p.Pkg("private/pkg/storage")
+	if pk == nil {
+		c.Fail(rule, "anchor", token.NoPos, "private/pkg/storage not found")
+		return
+	}
+	n := 0
+	for _, sf := range p.SSAFuncsOf([]*packages.Package{pk}) {
+		for _, f := range allSSAFuncs(sf) {
+			k := 0
+			for _, call := range callsIn(f) {
+				o := staticCalleeObj(call.Call)
+				if o == nil || o.Pkg() == nil || !strings.HasSuffix(o.Pkg().Path(), "/private/pkg/diff") || o.Name() != "Diff" {
+					continue
+				}
+				n++
+				k++
+				var rewrites []string
+				for _, a := range call.Call.Args {
+					if sl, ok := a.Type().Underlying().(*types.Slice); !ok || !isByteElem(sl) {
+						continue
+					}
+					sliceBack(a, func(x ssa.Value) bool {
+						if cl, ok := x.(*ssa.Call); ok {
+							if co := staticCalleeObj(&cl.Call); co != nil && co.Pkg() != nil && (co.Pkg().Path() == "bytes" || co.Pkg().Path() == "strings") {
+								rewrites = append(rewrites, co.Pkg().Name()+"."+co.Name())
+								return true
+							}
+							if sc := cl.Call.StaticCallee(); sc != nil && sc.Pkg == f.Pkg && len(sc.Blocks) > 0 && sc.Signature.Results().Len() > 0 {
+								if rsl, ok := sc.Signature.Results().At(0).Type().Underlying().(*types.Slice); ok && isByteElem(rsl) {
+									// a helper of the package returning bytes: what it does to them counts
+									for _, cc := range callsIn(sc) {
+										if co := staticCalleeObj(cc.Call); co != nil && co.Pkg() != nil && (co.Pkg().Path() == "bytes" || co.Pkg().Path() == "strings") {
+											rewrites = append(rewrites, co.Pkg().Name()+"."+co.Name()+" in "+sc.Name())
+										}
+									}
+								}
+							}
+							return false // a read: where the path it reads came from is not the data
+						}
+						return true
+					})
+				}
+				c.Ob(rule, fmt.Sprintf("%s/diff#%d", ssaFuncName(f), k), call.Pos(), len(rewrites) == 0, true, "the data handed to diff.Diff is what was read (rewriting calls on the way: %v)", uniq(rewrites))
+			}
+		}
+	}
+	if n == 0 {
+		c.Fail(rule, "anchor", token.NoPos, "no call of diff.Diff found in private/pkg/storage")
+	}
+}
+
+func isByteElem(sl *types.Slice) bool {
+	b, ok := sl.Elem().Underlying().(*types.Basic)
+	return ok && (b.Kind() == types.Byte || b.Kind() == types.Uint8)
+}
+
+// ---- C04 (after round-6 seed C04-r) --------------------------------------------------------------------------------
+
+// attributes a WIRE handler reads and its WIRE_JSON sibling does not, reviewed one by one
+var c04WireOnlyReviewed = map[string]string{
+	"handleBreakingFieldWireCompatibleType.Type": "selects which type-name comparison runs (enum / message / group) after the group check; the WIRE_JSON sibling selects the same three cases through descriptor.Kind(): the same attribute under another accessor, nothing is reported about Type itself",
+}
+
+// c04WireSiblingsAgree (WIRE-SIBLINGS-AGREE): FILE ⇒ PACKAGE ⇒ WIRE_JSON ⇒ WIRE: whatever the weakest category
+// reports, the stronger ones report too. The WIRE and WIRE_JSON variants of one rule are written as sibling handlers;
+// the WIRE variant reads no attribute of the field that its WIRE_JSON sibling does not read (an attribute only the
+// weakest sibling looks at - `packed` - is reported under WIRE alone).
+func c04WireSiblingsAgree(c *Ctx, pk *packages.Package) {
+	const rule = "WIRE-SIBLINGS-AGREE"
+	c.Rule(rule, "a WIRE handler reads no attribute that its WIRE_JSON sibling ignores", 1)
+	p := c.P
+	accessors := func(f *ssa.Function) map[string]bool {
+		out := map[string]bool{}
+		for _, g := range reachSSA(f, 3) {
+			if g.Pkg != f.Pkg && (g.Parent() == nil || g.Parent().Pkg != f.Pkg) {
+				continue
+			}
+			for _, call := range callsIn(g) {
+				if call.Call.IsInvoke() && strings.HasPrefix(namedPath(call.Call.Value.Type()), modPath+"/private/bufpkg/bufprotosource.") {
+					out[call.Call.Method.Name()] = true
+				}
+			}
+		}
+		return out
+	}
+	byName := map[string]*ssa.Function{}
+	for _, sf := range p.SSAFuncsOf([]*packages.Package{pk}) {
+		byName[sf.Name()] = sf
+	}
+	n := 0
+	for name, wire := range byName {
+		if !strings.HasPrefix(name, "handleBreaking") || !strings.Contains(name, "Wire") || strings.Contains(name, "WireJSON") {
+			continue
+		}
+		sib := byName[strings.Replace(name, "Wire", "WireJSON", 1)]
+		if sib == nil {
+			continue
+		}
+		n++
+		wa, ja := accessors(wire), accessors(sib)
+		var only []string
+		for a := range wa {
+			if !ja[a] {
+				if why := c04WireOnlyReviewed[name+"."+a]; why != "" {
+					c.Ob(rule, name+"/reviewed-"+a, wire.Pos(), true, false, "reviewed: %s", why)
+					continue
+				}
+				only = append(only, a)
+			}
+		}
+		c.Ob(rule, name, wire.Pos(), len(only) == 0, true, "attributes read by %s and not by %s: %v", name, sib.Name(), uniq(only))
+	}
+	if n == 0 {
+		c.Fail(rule, "anchor", token.NoPos, "no Wire/WireJSON handler pair found")
+	}
+}
+
+// ---- C01 (after round-6 seeds C01-p, C01-q) ------------------------------------------------------------------------
+
+// c01TargetWalkTargeted (TARGET-WALK-TARGETED): building a workspace looks only at what is targeted and at what the
+// targeted files import. Listing the target files by walking EVERY file of every module and filtering afterwards gives
+// the same list - when it returns: the full walk fails on a path shared by two non-target modules that nothing imports,
+// and on a non-target module without .proto files. The function that lists target files walks with the
+// only-target-files option.
+func c01TargetWalkTargeted(c *Ctx) {
+	const rule = "TARGET-WALK-TARGETED"
+	c.Rule(rule, "target files are listed by a walk restricted to target files, not by a full walk filtered afterwards", 1)
+	p := c.P
+	fr := p.Func("private/bufpkg/bufmodule", "GetTargetFileInfos")
+	if fr == nil || fr.Obj == nil {
+		c.Fail(rule, "anchor", token.NoPos, "bufmodule.GetTargetFileInfos not found")
+		return
+	}
+	sf := p.SSAFunc(fr.Obj)
+	targeted, full := false, []string{}
+	for _, f := range allSSAFuncs(sf) {
+		for _, call := range callsIn(f) {
+			if call.Call.IsInvoke() && call.Call.Method.Name() == "WalkFileInfos" {
+				ok := false
+				for _, a := range call.Call.Args {
+					if dependsOnCall(a, func(cc *ssa.CallCommon) bool {
+						o := staticCalleeObj(cc)
+						return o != nil && o.Name() == "WalkFileInfosWithOnlyTargetFiles"
+					}) {
+						ok = true
+					}
+				}
+				if ok {
+					targeted = true
+				} else {
+					full = append(full, "WalkFileInfos without the option")
+				}
+			}
+			if o := staticCalleeObj(call.Call); o != nil && o.Name() == "GetFileInfos" {
+				full = append(full, "GetFileInfos")
+			}
+		}
+	}
+	c.Ob(rule, "GetTargetFileInfos/walk", fr.Decl.Pos(), targeted && len(full) == 0, true, "walks with WalkFileInfosWithOnlyTargetFiles (%v); full walks: %v", targeted, uniq(full))
+}
+
+// c01ExcludesKeptWhole (EXCLUDES-KEPT-WHOLE): a file is a target when it lies inside a target path and not inside an
+// exclude path - any exclude path, also one that CONTAINS a target path. The exclude paths a module read bucket keeps
+// are the ones it was given: what is stored into its exclude-path member did not pass through a selecting call (a
+// function taking a predicate).
+func c01ExcludesKeptWhole(c *Ctx) {
+	const rule = "EXCLUDES-KEPT-WHOLE"
+	c.Rule(rule, "the exclude paths of a module read bucket are stored as given, none selected away", 1)
+	p := c.P
+	pk := p.Pkg("private/bufpkg/bufmodule")
+	if pk == nil {
+		c.Fail(rule, "anchor", token.NoPos, "bufmodule not found")
+		return
+	}
+	n := 0
+	for _, sf := range p.SSAFuncsOf([]*packages.Package{pk}) {
+		for _, b := range sf.Blocks {
+			for _, ins := range b.Instrs {
+				st, ok := ins.(*ssa.Store)
+				if !ok {
+					continue
+				}
+				fa, ok := st.Addr.(*ssa.FieldAddr)
+				if !ok {
+					continue
+				}
+				fn := strings.ToLower(fieldName(fa.X.Type(), fa.Field))
+				if !strings.Contains(fn, "modulereadbucket.") || !strings.Contains(fn, "exclude") {
+					continue
+				}
+				n++
+				var selecting []string
+				sliceBack(st.Val, func(x ssa.Value) bool {
+					if cl, ok := x.(*ssa.Call); ok {
+						for _, a := range cl.Call.Args {
+							if sig, ok := a.Type().Underlying().(*types.Signature); ok && sig.Results().Len() == 1 && isBoolType(sig.Results().At(0).Type()) {
+								if o := staticCalleeObj(&cl.Call); o != nil {
+									selecting = append(selecting, o.Name())
+								}
+							}
+						}
+					}
+					return true
+				})
+				c.Ob(rule, ssaFuncName(sf)+"/"+fn[strings.LastIndex(fn, ".")+1:], st.Pos(), len(selecting) == 0, true, "selecting calls on the way to the stored exclude paths: %v", uniq(selecting))
+			}
+		}
+	}
+	if n == 0 {
+		c.Fail(rule, "anchor", token.NoPos, "no store into an exclude-path member of the module read bucket found")
+	}
+}
